@@ -920,6 +920,20 @@ def ite(c, a, b) -> Sym:
     d = _ctx.decide(c)  # entailed by the facts of the current path / case scope
     if d is not None:
         return a if d else b
+    if _ctx.ST.nonzero_conditions and c.k[0] in ("lt", "le"):
+        # unit-level precondition "no branch polynomial is exactly zero" (C14: no face velocity sum is
+        # zero): p < 0 and p <= 0 coincide, and ite(p < 0, a, b) == ite(-p < 0, b, a); orient canonically
+        p = Sym._from_key(c.k[1])
+        if p.key()[0][1] < 0:
+            c, a, b = BoolSym(("lt", (-p).key())), b, a
+        else:
+            c = BoolSym(("lt", p.key()))
+        if a.key() == b.key():
+            return a
+    # canonical sign: ite(c, a, b) == -ite(c, -a, -b); keep the branch with a positive leading coefficient
+    lead = a.key()[0][1] if a.p else b.key()[0][1]
+    if lead < 0:
+        return -ite(c, -a, -b)
     sort = "int" if a.is_int_sorted() and b.is_int_sorted() else "real"
     return Sym.atom(mk_atom("ite", (c.key(), a.key(), b.key()), sort))
 
